@@ -94,6 +94,7 @@ type name struct {
 	RealmName      string
 	SwampName      string
 	IslandNumber   uint64
+	islandNumberOf uint64 // the allIslands value IslandNumber was computed for
 	hashPathMu     sync.Mutex
 	folderNumberMu sync.Mutex
 }
@@ -182,13 +183,15 @@ func (n *name) GetIslandID(allIslands uint64) uint64 {
 	n.folderNumberMu.Lock()
 	defer n.folderNumberMu.Unlock()
 
-	if n.IslandNumber != 0 {
+	// the cached value is only valid for the island count it was computed for
+	if n.IslandNumber != 0 && n.islandNumberOf == allIslands {
 		return n.IslandNumber
 	}
 
 	hash := xxhash.Sum64([]byte(n.SanctuaryID + n.RealmName + n.SwampName))
 
 	n.IslandNumber = hash%allIslands + 1
+	n.islandNumberOf = allIslands
 
 	return n.IslandNumber
 
